@@ -13,4 +13,22 @@ func init() {
 		{Kind: "calls", File: "v2/pkg/caching/cachecontrol.go", Func: "TTL", Name: "ttlSkeleton",
 			Match: []string{"if", "return", "cache.ParseCacheControlResponse", "cc.SMaxAge.AsDuration", "cc.MaxAge.AsDuration"}},
 	}
+
+	const lx = "v2/pkg/lexer/lexer.go"
+	const tk = "v2/pkg/astparser/tokenizer.go"
+	specs["C05"] = []item{
+		{Kind: "cases", File: lx, Func: "Lexer.byteIsWhitespace", Name: "whitespaceBytes", Typ: "nat"},
+		{Kind: "cases", File: lx, Func: "Lexer.matchSingleRuneToken", Name: "singleRuneBytes", Typ: "nat"},
+		{Kind: "cases", File: lx, Func: "Lexer.Read", Name: "readDispatch", Typ: "nat"},
+		{Kind: "cases", File: lx, Func: "Lexer.readComment", Name: "commentCases", Typ: "nat"},
+		{Kind: "cases", File: lx, Func: "Lexer.readBlockString", Name: "blockStringCases", Typ: "nat"},
+		{Kind: "cases", File: lx, Func: "Lexer.readSingleLineString", Name: "stringCases", Typ: "nat"},
+		{Kind: "conds", File: lx, Func: "Lexer.runeIsIdent", Name: "identConds"},
+		{Kind: "conds", File: lx, Func: "runeIsDigit", Name: "digitConds"},
+		{Kind: "consts", File: "v2/pkg/lexer/keyword/keyword.go", Name: "keywordValues", Typ: "nat",
+			Names: []string{"UNDEFINED", "IDENT", "COMMENT", "EOF", "COLON", "BANG", "LT", "TAB", "SPACE", "COMMA", "AT", "DOT", "SPREAD", "PIPE", "SLASH", "EQUALS", "SUB", "AND", "QUOTE", "DOLLAR", "STRING", "BLOCKSTRING", "INTEGER", "FLOAT", "LPAREN", "RPAREN", "LBRACK", "RBRACK", "LBRACE", "RBRACE"}},
+		{Kind: "conds", File: tk, Func: "Tokenizer.TokenizeWithLimits", Name: "limitsOuterCases", Index: 0},
+		{Kind: "conds", File: tk, Func: "Tokenizer.TokenizeWithLimits", Name: "limitsKeywordCases", Index: 1},
+		{Kind: "calls", File: tk, Func: "Tokenizer.TokenizeWithLimits", Name: "limitsConditions", Match: []string{"if"}},
+	}
 }
